@@ -11,7 +11,7 @@ import numpy as np
 from tools.harness import gens
 from tools.harness.core import Unit, Failure, q, qa, qlist, zlit, natlist, exn_name, tol_for, all_finite
 from tools.props import rfa_units
-from tools.props.proc_units import coq_poly, poly, POLYS
+from tools.props.proc_units import coq_poly, poly, poly_kind, POLYS
 
 DOMAIN_OPS = ["append", "shift_x", "shift_y", "scale_x", "scale_y", "normalize_x", "normalize_y", "repeat",
               "truncate_by_value", "truncate_by_index"]
@@ -215,6 +215,25 @@ Definition prog_ok (x : option (list Qc)) (y : list Qc) (e : option exn) (steps 
                 for sv in rng.sample([0.5, 1.0, 10.0, 0.01, 2.0, 5.0], 3):
                     cases.append({"x": xs, "y": ys, "script": [{"op": "append", "periodic": True}, {"op": "smooth", "s": sv}], "seed": 1, "len": 2,
                                   "pool": [], "as_list": False, "int_x": False, "x_none": False, "invalid": False})
+        if "restore" in pool and not self.exhaustive_domain:
+            # the same request before and after restore_original, with the values changed in between: whatever the object remembers
+            # about the first request (a fitted spline, a grid, a window table) must not answer the second one
+            again = [{"op": "smooth", "s": 0.5}, {"op": "smooth", "s": None}, {"op": "smooth", "s": 0.0},
+                     {"op": "interpolate", "n": 7, "method": "linear"}, {"op": "interpolate", "n": 6, "method": "cubic"},
+                     {"op": "recreate", "n": 4, "strategy": "linfixed", "alpha": 1.0, "a": None, "beta": 0.5, "exp": 2.0, "smooth": 1.0},
+                     {"op": "recreate", "n": 3, "strategy": "pc", "alpha": 1.0, "a": None, "beta": 0.5, "exp": 2.0, "smooth": 1.0},
+                     {"op": "recreate", "n": 4, "strategy": "cubic", "alpha": 1.0, "a": None, "beta": 0.5, "exp": 2.0, "smooth": 1.0},
+                     {"op": "trend", "coef": [0, 1], "normalized": True}, {"op": "repeat", "r": 2}, {"op": "append", "periodic": True}]
+            for req in again:
+                if req["op"] not in pool:
+                    continue
+                m = rng.randint(6, 9)
+                chg = rng.choice([{"op": "shift_y", "v": 5.0}, {"op": "scale_y", "v": -2.0}, {"op": "shift_x", "v": 2.5}, {"op": "scale_x", "v": 4.0}])
+                if chg["op"] not in pool:
+                    continue
+                script = [chg, dict(req), {"op": "restore"}, dict(req)]
+                cases.append({"x": gens.sorted_x(rng, m, rng.choice(["uniform", "dyadic", "int"])), "y": gens.values(rng, m), "script": script, "seed": 1,
+                              "len": len(script), "pool": [], "as_list": False, "int_x": False, "x_none": False, "invalid": False})
         if self.queries or self.invalid:
             # zero as a bound (falsy in Python): on a series straddling 0, and as a value that is not a sample
             zx = [-3.0, -2.0, -1.0, 0.0, 1.0, 2.0, 3.0]
@@ -359,7 +378,7 @@ Definition prog_ok (x : option (list Qc)) (y : list Qc) (e : option exn) (steps 
             g = [float(x[0])] + [v for v in inner if x[0] < v < x[-1]] + [float(x[-1])]
             return {"op": name, "new_x": g, "as_list": rng.random() < 0.5, "method": method}
         if name == "trend":
-            return {"op": name, "coef": rng.choice(POLYS), "normalized": rng.random() < 0.5}
+            return {"op": name, "coef": rng.choice(POLYS), "normalized": rng.random() < 0.5, "fn_kind": rng.choice(["array", "array", "scalar_only", "branching"])}
         if name == "smooth":
             if n < 5:
                 return None
@@ -483,10 +502,11 @@ Definition prog_ok (x : option (list Qc)) (y : list Qc) (e : option exn) (steps 
             else:
                 w.interpolate(method=o["method"])
         elif name == "trend":
+            fn = poly_kind(o["coef"], o.get("fn_kind", "array"))     # a vectorised callable or one that takes one abscissa only
             if om and not o["normalized"]:
-                w.trend(poly(o["coef"]))
+                w.trend(fn)
             else:
-                w.trend(poly(o["coef"]), normalized=o["normalized"])
+                w.trend(fn, normalized=o["normalized"])
         elif name == "smooth":
             # record what FITPACK returns for this call: the model stores exactly that answer, evaluated at x
             import traffic_weaver.process as P
@@ -500,12 +520,21 @@ Definition prog_ok (x : option (list Qc)) (y : list Qc) (e : option exn) (steps 
                 return r
             P.splrep = rec_splrep
             xb = np.asarray(w.x, dtype=float).copy()
+            yb = np.asarray(w.y, dtype=float).copy()
             try:
                 w.smooth(o["s"])
             finally:
                 P.splrep = real
             if len(got) == 1:
                 o["_fitpack_answer"] = np.asarray(BSpline(*got[0])(xb), dtype=float).tolist()
+            else:
+                # FITPACK was not asked exactly once (a memoised fit, a second fit): how often it is asked is not judged, but the model is
+                # then given FITPACK's answer for *these* data and this smoothing condition (s = n var(y) when omitted: C16), asked here —
+                # a remembered fit of other data does not pass for it
+                with warnings.catch_warnings():
+                    warnings.simplefilter("ignore")
+                    s_ = o["s"] if o["s"] is not None else len(yb) * float(np.std(yb)) ** 2
+                    o["_fitpack_answer"] = np.asarray(BSpline(*real(xb, yb, s=s_))(xb), dtype=float).tolist()
         elif name == "noise":
             old = np.random.normal
             np.random.normal = rec
@@ -562,6 +591,8 @@ Definition prog_ok (x : option (list Qc)) (y : list Qc) (e : option exn) (steps 
         except Exception:
             twin = None
         script = c.get("script")
+        issued = []
+        fresh = None
         nsteps = len(script) if script is not None else c["len"]
         with warnings.catch_warnings():
             warnings.simplefilter("ignore")
@@ -572,6 +603,10 @@ Definition prog_ok (x : option (list Qc)) (y : list Qc) (e : option exn) (steps 
                     o = self.choose_invalid(rng, w)
                 elif self.invalid_kinds and k > 0 and rng.random() < 0.3 and len(np.asarray(w.x)) >= 2:
                     o = self.choose_invalid(rng, w, self.invalid_kinds)
+                elif issued and rng.random() < 0.12 and len(np.asarray(w.x)) >= 5:
+                    # the very same request as an earlier one, on what the object has become since: a result remembered per
+                    # (object, arguments) — a memoised fit, a cached grid — is then stale
+                    o = dict(rng.choice(issued))
                 else:
                     o = None
                     for _ in range(5):
@@ -588,8 +623,11 @@ Definition prog_ok (x : option (list Qc)) (y : list Qc) (e : option exn) (steps 
                             break
                     if o is None:
                         continue
+                if "invalid" not in o and o["op"] in ("smooth", "shift_x", "shift_y", "scale_x", "scale_y", "trend", "noise"):
+                    issued.append(o)      # requests whose precondition does not depend on the state (smooth: >= 5 samples)
                 st = {"op": o}
                 before = snapshot(w)
+                o_fresh = {k_: v_ for k_, v_ in o.items() if not k_.startswith("_")}
                 if o["op"] in QUERY_OPS:
                     try:
                         rx, ry = self.query(w, o)
@@ -611,6 +649,28 @@ Definition prog_ok (x : option (list Qc)) (y : list Qc) (e : option exn) (steps 
                     st.update(snapshot(w))
                     if len(rec.calls) > ncalls:
                         st["normal_call"] = rec.calls[-1]
+                    # "after restore_original the object behaves, for every subsequent operation, exactly like a newly constructed one
+                    # on the data get_original() returns": from a restore on, a new object gets the same requests (until noise, whose
+                    # draws are not replayed); the two must stay in the same state, bit for bit, and raise alike
+                    if o["op"] == "restore" and "exc" not in st:
+                        try:
+                            ox_, oy_ = w.get_original()
+                            fresh = Weaver(np.array(ox_, dtype=float), np.array(oy_, dtype=float))
+                        except Exception:
+                            fresh = None
+                    elif o["op"] == "noise":
+                        fresh = None
+                    elif fresh is not None:
+                        exc_f = None
+                        try:
+                            with warnings.catch_warnings():
+                                warnings.simplefilter("ignore")
+                                self.apply(fresh, o_fresh, rec)
+                        except Exception as e:
+                            exc_f = exn_name(e)
+                        if exc_f != st.get("exc") or (exc_f is None and snapshot(fresh)["state"] != st["state"]):
+                            st["fresh_differs"] = "raised %s / %s" % (st.get("exc"), exc_f) if exc_f != st.get("exc") else "states differ"
+                            fresh = None
                 st["before"] = before["state"]
                 st["caller_changed"] = not (np.array_equal(xin, cx) and np.array_equal(yin, cy))
                 out["steps"].append(st)
@@ -765,6 +825,8 @@ Definition prog_ok (x : option (list Qc)) (y : list Qc) (e : option exn) (steps 
                 break
             if any(b <= a for a, b in zip(S[0][:-1], S[0][1:])):
                 fail("C09", "sorted", "step %d: abscissae not strictly increasing after %s" % (i, op), op=name)
+            if st.get("fresh_differs"):
+                fail("C09", "restore-behaviour", "step %d: after restore_original, %s on the restored object and on a new Weaver(get_original()) differ (%s)" % (i, {k_: v_ for k_, v_ in op.items() if not k_.startswith("_")}, st["fresh_differs"]), op=name)
             if name.startswith("normalize"):
                 normed = True
             elif S[2] != B[2] or S[3] != B[3]:
@@ -818,11 +880,34 @@ Definition prog_ok (x : option (list Qc)) (y : list Qc) (e : option exn) (steps 
     def op_oracle(self, op, st, B, S, fail, i):
         name = op["op"]
         close = lambda a, b: len(a) == len(b) and (len(a) == 0 or float(np.max(np.abs(np.array(a) - np.array(b)))) <= 1e-9 * (1 + float(np.max(np.abs(np.array(b))))))
-        if name in ("shift_x", "shift_y", "scale_x", "scale_y"):
+        # what each domain operation does is the subject of C11 / C12 / C14 / C17 — and of C08, which says that working and reference
+        # series "equal the original with exactly those transformations applied": when the unit runs for C08 these oracles judge for it
+        dom = lambda p: p if p in self.aspects else "C08"
+        if name == "append":
+            for kx, ky in ((0, 1), (4, 5)):
+                x, y = B[kx], B[ky]
+                if len(x) < 2:
+                    continue
+                if S[kx] != x + [x[-1] + (x[-1] - x[-2])] or S[ky] != y + [y[0] if op["periodic"] else y[-1]]:
+                    fail(dom("C17"), "append", "step %d: append_one_sample(periodic=%s) of the %s series is not the series continued by its last step and its %s value"
+                         % (i, op["periodic"], "working" if kx == 0 else "reference", "first" if op["periodic"] else "last"))
+        elif name in ("normalize_x", "normalize_y"):
+            k = 0 if name.endswith("x") else 1
+            for kk in (k, 2 + k, 4 + k):
+                v = B[kk]
+                lo_, hi_ = min(v), max(v)
+                if hi_ == lo_:
+                    continue
+                exp = [float(Fraction(op["lo"]) + (Fraction(a) - Fraction(lo_)) / (Fraction(hi_) - Fraction(lo_)) * (Fraction(op["hi"]) - Fraction(op["lo"]))) for a in v]
+                if not close(S[kk], exp):
+                    fail(dom("C14"), "normalize", "step %d: %s did not map the %s series affinely onto [%s, %s]" % (i, name, ("working", "original", "reference")[kk // 2], op["lo"], op["hi"]))
+            if S[1 - k] != B[1 - k] or S[5 - k] != B[5 - k]:
+                fail(dom("C14"), "normalize", "step %d: %s changed the other axis" % (i, name))
+        elif name in ("shift_x", "shift_y", "scale_x", "scale_y"):
             k = 0 if name.endswith("x") else 1
             f = (lambda v: v + op["v"]) if name.startswith("shift") else (lambda v: v * op["v"])
             if S[k] != [f(v) for v in B[k]] or S[4 + k] != [f(v) for v in B[4 + k]] or S[1 - k] != B[1 - k] or S[5 - k] != B[5 - k]:
-                fail("C14", "shift-scale", "step %d: %s is not the point-wise map on working and reference" % (i, op))
+                fail(dom("C14"), "shift-scale", "step %d: %s is not the point-wise map on working and reference" % (i, op))
         elif name == "trend":
             f = poly(op["coef"])
             span = B[0][-1] - B[0][0]
@@ -832,7 +917,7 @@ Definition prog_ok (x : option (list Qc)) (y : list Qc) (e : option exn) (steps 
         elif name == "truncate_by_index":
             stop = op["stop"] if op["stop"] is not None else len(B[0])
             if S[0] != B[0][op["start"]:stop] or S[1] != B[1][op["start"]:stop] or S[4] != B[4][op["start"]:stop]:
-                fail("C11", "truncate-by-index", "step %d: truncate_by_index disagrees with Python slicing" % i)
+                fail(dom("C11"), "truncate-by-index", "step %d: truncate_by_index disagrees with Python slicing" % i)
         elif name == "truncate_by_value":
             for kx, ky in ((0, 1), (4, 5)):
                 x, y = B[kx], B[ky]
@@ -856,7 +941,7 @@ Definition prog_ok (x : option (list Qc)) (y : list Qc) (e : option exn) (steps 
                 P = (x[-1] - x[0]) + (x[-1] - x[-2])
                 exp = [x[j] + t * P for t in range(r) for j in range(len(x))]
                 if not close(S[kx], exp) or S[ky] != B[ky] * r:
-                    fail("C12", "repeat", "step %d: repeat(%d) of the %s series is not the periodic extension" % (i, r, "working" if kx == 0 else "reference"))
+                    fail(dom("C12"), "repeat", "step %d: repeat(%d) of the %s series is not the periodic extension" % (i, r, "working" if kx == 0 else "reference"))
         elif name == "interpolate" and "exc" not in st:
             x = B[0]
             if "n" in op:
